@@ -116,6 +116,46 @@ ConvTags(rec, tl) ==
          THEN {"Converged|" \o (IF tl[o][g] = "on" THEN "stale_on" ELSE "missed_on") \o "|" \o g \o "|" \o o \o "|" \o g} ELSE {}
          : o \in Users} : g \in Groups}
 
+\* ------------------------------------------------------------------ clause (2), exceptions: acs / gone arrive REGARDLESS of P
+\* A removal (the user's row of a topic stops being live: {del sub}, {del topic}, {leave unsub}, by anybody) reaches every
+\* session of that user that is attached to 'me' as {pres me what=gone src=<contact>} exactly once; a permission change of a
+\* live row reaches it as {pres what=acs} exactly once, on 'me' or (a session also attached to the topic) on the topic;
+\* a new row (subscription, invitation) is announced by at least one {pres acs}. The session that made the request
+\* is exempt (it has its {ctrl}). Whether the contact is enabled in the user's 'me' topic must not matter.
+CountFrames(fs, Test(_)) == Cardinality({j \in DOMAIN fs : Test(fs[j])})
+NoticeTags(pre, rec) ==
+  LET req == rec.act.s IN
+  UNION {UNION {
+    LET r0 == RowOf(pre, t, u)  r1 == RowOf(rec, t, u)
+        c == ContactOf(t, u)
+        removed == r0.st = "live" /\ r1.st # "live"
+        changed == r0.st = "live" /\ r1.st = "live" /\ (r0.want # r1.want \/ r0.given # r1.given)
+        created == r0.st # "live" /\ r1.st = "live"
+        watchers == {s \in SessOf(u) : s # req /\ s \in AttSess(pre, MeName(u)) /\ s \in AttSess(rec, MeName(u))}
+        onMe(s, w) == CountFrames(rec.frames[s], LAMBDA f : f.k = "pres" /\ f.topic = "me" /\ f.src = c /\ f.what = w)
+        onTopic(s, w) == IF s \in AttSess(pre, t)
+                         THEN CountFrames(rec.frames[s], LAMBDA f : f.k = "pres" /\ f.topic = t /\ f.src \in {"", u} /\ f.what = w) ELSE 0
+        tag(m, w, kd, s) == m \o "|" \o w \o "|" \o kd \o "|" \o t \o "|" \o u \o "|" \o s
+    IN IF ~(t \in P2Ps => u \in Ends[t]) THEN {}
+       ELSE UNION {
+         (IF removed /\ onMe(s, "gone") = 0 THEN {tag("NoticeDelivered", "gone", "missing", s)} ELSE {})
+         \cup (IF removed /\ onMe(s, "gone") > 1 THEN {tag("NoticeOnce", "gone", "dup", s)} ELSE {})
+         \cup (IF (changed \/ created) /\ onMe(s, "acs") + onTopic(s, "acs") = 0 THEN {tag("NoticeDelivered", "acs", "missing", s)} ELSE {})
+         \cup (IF changed /\ onMe(s, "acs") + onTopic(s, "acs") > 1 THEN {tag("NoticeOnce", "acs", "dup", s)} ELSE {})
+         : s \in watchers}
+    : u \in Users} : t \in SubTopics}
+
+\* nothing else about a DISABLED contact: presence of a contact that the user's 'me' topic holds disabled before and after
+\* the step is not forwarded (the P-based NoLeak above covers every other kind of notification)
+DisabledTags(pre, rec) ==
+  UNION {UNION {
+     LET f == rec.frames[s][j]
+         u == SessUser[s]
+         dis(x) == x.me[u].loaded /\ f.src \in DOMAIN x.me[u].ps /\ ~x.me[u].ps[f.src].en IN
+     IF f.k = "pres" /\ f.topic = "me" /\ f.what \in {"on", "off"} /\ f.src \in Contacts /\ dis(pre) /\ dis(rec)
+     THEN {"NoLeak|disabled_contact|pres|" \o f.what \o "|me|" \o f.src \o "|" \o s} ELSE {}
+     : j \in DOMAIN rec.frames[s]} : s \in Sessions}
+
 \* "idle topics unloaded" must be reachable: when the harness fires the idle timer of a loaded topic without attached
 \* sessions, the server must have armed that timer itself (otherwise the topic stays loaded, and online for its
 \* members / the user's partners, for ever)
@@ -156,14 +196,14 @@ RowEvents(pre, rec, a) ==
   IN SelectSeq(all, LAMBDA e : e.k = "row") \o SelectSeq(all, LAMBDA e : e.k # "row")
 
 NoReplyKinds == {"Unload", "BgFire", "Disconnect", "Connect", "ConnectBg", "Note", "Nop"}
-Modelled == {"Sub", "Leave", "NewGrp", "Disconnect", "Connect", "ConnectBg", "BgFire", "Unload", "SetSelf", "SetOther", "DelSub",
+Modelled == {"Sub", "Leave", "NewGrp", "DelTopic", "Disconnect", "Connect", "ConnectBg", "BgFire", "Unload", "SetSelf", "SetOther", "DelSub",
              "Pub", "Note", "DelMsg", "SetDesc", "Get"}
 Diverge(pre, rec, tlPre, tlPost) ==
   LET a == rec.act IN
   IF a.a \notin Modelled \/ rec.err # "" THEN {}
   ELSE LET ok == a.a \in NoReplyKinds \/ (rec.code >= 200 /\ rec.code < 300)
            fresh == a.a = "ConnectBg" /\ ~pre.sess[a.sess].live
-           r == SeqStep(StateOf(pre, tlPre), a, RowEvents(pre, rec, a), [ok |-> ok, denied |-> rec.code = 403, fresh |-> fresh])
+           r == SeqStep(StateOf(pre, tlPre), a, RowEvents(pre, rec, a), [ok |-> ok, denied |-> rec.code = 403, fresh |-> fresh, tl |-> IF a.t \in TopicNames THEN pre.loaded[a.t] ELSE FALSE])
            post == StateOf(rec, tlPost)
        IN (IF r.left # <<>> THEN {"fuel"} ELSE {})
           \cup (IF r.st.ps # post.ps THEN {"perSubs"} ELSE {})
@@ -184,6 +224,6 @@ Next == /\ k < NT
                tl == ToldAfter(told, rec) IN
            /\ k' = k + 1
            /\ told' = tl
-           /\ bad' = LeakTags(pre, rec) \cup CountTags(rec) \cup ConvTags(rec, tl) \cup IdleTags(rec)
+           /\ bad' = LeakTags(pre, rec) \cup CountTags(rec) \cup ConvTags(rec, tl) \cup IdleTags(rec) \cup NoticeTags(pre, rec) \cup DisabledTags(pre, rec)
            /\ div' = Diverge(pre, rec, told, tl)
 =============================================================================
